@@ -177,7 +177,7 @@ def am_model(tier, out):
     SignOnlyClaimed and the ByIndex contract for EACH sibling implementation, refreshes before any lookup; the control
     designs - an empty index list read as "no restriction" (dirk alone, wallet alone), the indices ignored - rejected."""
     try:
-        res = [vf.tlc_exhaustive(PID, "MC_AttesterAM", "MC_AttesterAM.cfg", workers=4, timeout=900, heap="3g"),
+        res = [vf.tlc_exhaustive(PID, "MC_AttesterAM", "MC_AttesterAM.cfg", workers=4, timeout=2400, heap="3g"),
                vf.tlc_exhaustive(PID, "MC_AttesterAM", "MC_AttesterAM_ask.cfg", workers=2, timeout=600, heap="2g")]
         _expect_am_rejected("MC_AttesterAM_empty_all_dirk.cfg", "NoDoubleSign")
         _expect_am_rejected("MC_AttesterAM_empty_all_wallet.cfg", "NoDoubleSign")
@@ -298,7 +298,7 @@ def _expect_violation(cfg, inv, timeout=900):
 def vouch_model(tier, out):
     """Exhaustive runs of the composition that must pass (in a thread beside the driver); results / exception into out."""
     try:
-        res = [vf.tlc_exhaustive(PID, "MC_Vouch", "MC_Vouch.cfg", timeout=600)]
+        res = [vf.tlc_exhaustive(PID, "MC_Vouch", "MC_Vouch.cfg", timeout=2400)]
         if tier == "thorough":
             res.append(vf.tlc_exhaustive(PID, "MC_Vouch", "MC_Vouch_big.cfg", timeout=1500))
             res.append(vf.tlc_exhaustive(PID, "MC_Vouch", "MC_Vouch_fail.cfg", timeout=900))
@@ -385,7 +385,7 @@ def shape_model(tier, out):
     pre-marked instances; the control design holds while validators are distinct and is rejected once they may repeat."""
     try:
         # (small heaps: these run beside the other models of the check)
-        res = [vf.tlc_exhaustive(PID, "MC_Attester", "MC_Attester_shape.cfg", workers=4, timeout=600, heap="3g"),
+        res = [vf.tlc_exhaustive(PID, "MC_Attester", "MC_Attester_shape.cfg", workers=4, timeout=2400, heap="3g"),
                vf.tlc_exhaustive(PID, "MC_Attester", "MC_Attester_walk_inj.cfg", workers=2, timeout=600, heap="2g")]
         _expect_walk_rejected("MC_Attester_walk.cfg")
         if tier == "thorough":
@@ -422,8 +422,9 @@ def run(tier):
 def attester_model(tier, out):
     """The exhaustive runs of Attester.tla proper (overlapping runs, sequential histories) go on beside the conformance."""
     try:
-        res = [vf.tlc_exhaustive(PID, "MC_Attester", "MC_Attester.cfg"),
-               vf.tlc_exhaustive(PID, "MC_Attester", "MC_Attester_hist.cfg")]
+        # (generous time limits: on a heavily loaded machine these take many times their unloaded 10 s)
+        res = [vf.tlc_exhaustive(PID, "MC_Attester", "MC_Attester.cfg", timeout=2400),
+               vf.tlc_exhaustive(PID, "MC_Attester", "MC_Attester_hist.cfg", timeout=2400)]
         if tier == "thorough":
             res.append(vf.tlc_exhaustive(PID, "MC_Attester", "MC_Attester_big.cfg", timeout=1800))
         out["mc"] = res
